@@ -732,7 +732,8 @@ class Session:
             from watchdog import events as ev
 
             flt = [getattr(ev, n) for n in flt]
-        self.watch = self.obs.schedule(self.handler, given, recursive=bool(cfg.get("recursive", True)), event_filter=flt)
+        kw = {"follow_symlink": True} if cfg.get("follow_symlink") else {}
+        self.watch = self.obs.schedule(self.handler, given, recursive=bool(cfg.get("recursive", True)), event_filter=flt, **kw)
         self.given2 = None
         if tw:
             # the same directory scheduled a second time on the same observer, under another spelling, for another handler
